@@ -637,7 +637,7 @@ func ruleR03_4(w *World, r *Report) {
 	for _, c := range callsNamed(fn, "executeLocalBase") {
 		exec, _ = c.(*ssa.Call)
 	}
-	apps := callsNamed(fn, "appendOperation")
+	apps := bufferAppends(fn)
 	if exec == nil || len(apps) == 0 {
 		r.Lost("SentenceInTx: executeLocalBase and appendOperation")
 		return
@@ -675,11 +675,7 @@ func ruleR03_4(w *World, r *Report) {
 	// replay list of the next rollback, which would otherwise lose every operation received since the rollback point
 	for _, c := range callsNamed(fn, "executeRemoteBase") {
 		follows, _ := mustReach(c.(ssa.Instruction), func(in ssa.Instruction) bool {
-			ci, ok := in.(ssa.CallInstruction)
-			if !ok || calleeName(ci) != "appendOperation" {
-				return false
-			}
-			return true
+			return isBufferAppend(in)
 		}, false)
 		r.Check(follows, "TransactionDatatype.SentenceInTx/append-after-remote-execute", u.Pos(c.Pos()), "a remote operation is appended to the transaction buffer on every path",
 			"an operation applied from remote is not appended to the transaction buffer: it is never recorded for replay, so the next rollback (restore snapshot, replay recorded operations) silently drops it")
@@ -894,4 +890,30 @@ func ruleR03_7(w *World, r *Report) {
 		r.Check(good, cons, u.Pos(as.Pos()), "asserted (live container of the right kind) before the operation is built",
 			fmt.Sprintf("assertLocalOp(kind=%d, workOnGarbage=%s) does not guard the construction of the operation as required (expected kind %d, workOnGarbage=false, operation built only when it returned nil)", kind, exprName(args[len(args)-1]), wk))
 	}
+}
+
+// isBufferAppend: the instruction records an operation in the transaction buffer - a call of appendOperation, or
+// (when that one-line helper was inlined) the store "opBuffer = append(opBuffer, op)".
+func isBufferAppend(in ssa.Instruction) bool {
+	if ci, ok := in.(ssa.CallInstruction); ok && calleeName(ci) == "appendOperation" {
+		return true
+	}
+	if st, ok := in.(*ssa.Store); ok && strings.HasSuffix(canonName(st.Addr), ".opBuffer") {
+		if c, isCall := st.Val.(*ssa.Call); isCall {
+			if b, isB := c.Call.Value.(*ssa.Builtin); isB && b.Name() == "append" {
+				return true
+			}
+		}
+	}
+	return false
+}
+
+func bufferAppends(fn *ssa.Function) []ssa.Instruction {
+	var out []ssa.Instruction
+	forEachInstr(fn, func(in ssa.Instruction) {
+		if isBufferAppend(in) && !(in.Parent() != fn && in.Parent().Name() == "appendOperation") {
+			out = append(out, in)
+		}
+	})
+	return out
 }
